@@ -11,7 +11,10 @@ class Check(common.Check):
         'each_at_most_once', 'pop_is_head', 'pop_nondecreasing', 'two_pops_ordered',
         'fifo_among_equal', 'readd_moves_to_new_time_as_latest', 'remove_preserves_others',
         'empty_iff_no_live', 'peek_smallest_is_next_pop', 'peek_largest_is_max_latest',
-        'removed_counter_counts_tombstones', 'drain_refines')]
+        'removed_counter_counts_tombstones', 'drain_refines',
+        'scheduler_refines', 'scheduler_sorted_one_entry_per_key', 'scheduler_pop_is_head',
+        'scheduler_add_replaces_key', 'retime_keeps_queue_order', 'retime_same_tasks',
+        'score_listing', 'score_sorted_each_once', 'score_fifo')]
     N_QUICK = 1000
     N_THOROUGH = 60000
     ASSUMPTIONS = ['heapq implements a priority queue under Python list comparison (trusted)',
@@ -74,9 +77,42 @@ class Check(common.Check):
             beh[t] = [o for o in ops if not (o[0] == 'a' and str(o[2]) == t)]
         return {'adds': adds, 'beh': beh}
 
+    def gen_sched(self, rng):
+        """the non-real-time scheduler: clock tasks on 1-3 stub clocks, few beats (ties frequent),
+        the same task scheduled again on the same clock, tempo changes with tasks pending, and a
+        run in which waking tasks re-schedule themselves, schedule others and change tempo"""
+        nc, nt, nb = rng.randint(1, 3), rng.randint(1, 5), rng.randint(1, 4)
+        ops = [['clock', c, rng.choice([1, 1, 2, 3]), rng.choice([0, 0, 1, 4])] for c in range(nc)]
+
+        def sched():
+            return ['sched', rng.randrange(nb), rng.randrange(nc), rng.randrange(nt)]
+
+        def tempo():
+            return ['tempo', rng.randrange(nc), rng.choice([1, 2, 2, 3, 4]), rng.choice([0, 0, 1, 2, 4])]
+        for _ in range(rng.choice([rng.randint(1, 6), rng.randint(4, 20)])):
+            r = rng.random()
+            ops.append(sched() if r < 0.62 else tempo() if r < 0.85 else ['iter'])
+        beh = {}
+        for t in range(nt):
+            for n in range(rng.choice([0, 1, 1, 2, 3])):
+                if rng.random() < 0.7:
+                    sub = [sched() if rng.random() < 0.6 else tempo() for _ in range(rng.choice([0, 0, 1, 1, 2]))]
+                    beh[f'{t}:{n}'] = [rng.choice([None, 0, 1, 1, 2]), sub]
+        ops += [['iter'], ['run'], ['iter']]
+        return {'kind': 'sched', 'ops': ops, 'beh': beh}
+
+    def gen_score(self, rng):
+        """score entries: few distinct times and contents, so byte-identical bundles are frequent"""
+        ntimes, ncont = rng.randint(1, 4), rng.randint(1, 3)
+        n = rng.choice([rng.randint(0, 5), rng.randint(3, 25)])
+        adds = [[8 * rng.randrange(ntimes), rng.randrange(ncont)] for _ in range(n)]
+        return {'kind': 'score', 'adds': adds, 'tail': 8 * rng.choice([0, 0, 1, ntimes, ntimes + 2])}
+
     def gen(self, rng, n):
         cases = [self.gen_one(rng) for _ in range(n)]
         cases += [self.gen_shutdown(rng) for _ in range(max(20, n // 8))]
+        cases += [self.gen_sched(rng) for _ in range(max(60, n // 4))]
+        cases += [self.gen_score(rng) for _ in range(max(40, n // 8))]
         if self.tier == 'thorough':
             import itertools
             alpha = ['add 0 0', 'add 0 1', 'add 1 0', 'add 1 1', 'remove 0', 'remove 1', 'pop',
@@ -92,13 +128,39 @@ class Check(common.Check):
         res, err = common.run_impl('c09', 'run', {'cases': cases})
         if res is None:
             self.notes.append(err)
+            return res
+        self._score_base = {}
+        for i, (c, o) in enumerate(zip(cases, res)):
+            if isinstance(c, dict) and c.get('kind') == 'score' and len(o) == 3:
+                self._score_base[i] = o[1]
+                if not o[2]:
+                    o[0] = 'EMPTY-RAW ' + o[0]
+                o[1:] = [f'base {o[1]}']
         return res
+
+    @staticmethod
+    def sched_lines(case):
+        def bop(op):
+            return ('s.' if op[0] == 'sched' else 't.') + '.'.join(str(x) for x in op[1:])
+        lines = []
+        for op in case['ops']:
+            if op[0] == 'run':
+                lines.append('cs-run ' + ' '.join(
+                    f'{k}:{"n" if v[0] is None else v[0]}:' + ';'.join(bop(o) for o in v[1]) for k, v in case['beh'].items()))
+            else:
+                lines.append('cs-' + ' '.join(str(x) for x in op))
+        return lines
 
     def model(self, cases):
         lines = []
-        for ops in cases:
+        for ci, ops in enumerate(cases):
             lines.append('reset')
-            if isinstance(ops, dict):
+            if isinstance(ops, dict) and ops.get('kind') == 'sched':
+                lines.extend(self.sched_lines(ops))
+            elif isinstance(ops, dict) and ops.get('kind') == 'score':
+                base = getattr(self, '_score_base', {}).get(ci, 0)
+                lines.append('score 0 ' + ' '.join(str(t) for t, _ in ops['adds']) + f' {ops["tail"] + base}')
+            elif isinstance(ops, dict):
                 lines.extend(f'add {p} {t}' for p, t in ops['adds'])
                 lines.append('drain ' + ' '.join(
                     f'{t}:' + ';'.join('.'.join(str(x) for x in o) for o in os_) for t, os_ in ops['beh'].items()))
@@ -114,7 +176,24 @@ class Check(common.Check):
             else:
                 cur.append(l)
         # a shutdown case prints one 'ok' per add and then the drain line; keep the drain line
-        return [([c[-1]] if isinstance(case, dict) else c) for case, c in zip(cases, res)]
+        final = []
+        for case, c in zip(cases, res):
+            if isinstance(case, dict) and case.get('kind') == 'sched':
+                final.append(c)
+            elif isinstance(case, dict) and case.get('kind') == 'score':
+                # entry identities -> what the entry carries
+                n = len(case['adds'])
+                names = {0: 'root', n + 1: 'tail'}
+                names.update({i + 1: str(cont) for i, (_, cont) in enumerate(case['adds'])})
+                body = c[-1][len('listing ['):-1]
+                items = [x.strip('()').split(',') for x in body.split('),(')] if body else []
+                final.append(['listing [' + ','.join(f'({t},{names.get(int(i), "?")})' for t, i in items) + ']',
+                              f'base {getattr(self, "_score_base", {}).get(len(final), 0)}'])
+            elif isinstance(case, dict):
+                final.append([c[-1]])
+            else:
+                final.append(c)
+        return final
 
     # ---- property oracle on the real behaviour (independent of the Lean model) -----------
     def oracle_shutdown(self, case, out):
@@ -141,7 +220,82 @@ class Check(common.Check):
                     'signature': 'taskq:shutdown'}
         return None
 
+    def oracle_sched(self, case, out):
+        """reference scheduler: sorted list of (time, seq, ct), one entry per (clock, task)"""
+        s, seq = [], 0
+        cts, clocks, wakes = [], {}, {}
+
+        def secs(c, b):
+            sc, off = clocks.get(c, (1, 0))
+            return off + b * sc
+
+        def add(time, ct):
+            nonlocal s, seq
+            key = cts[ct][1:]
+            s = [x for x in s if cts[x[2]][1:] != key]
+            s.append((time, seq, ct)); seq += 1; s.sort()
+
+        def do(op):
+            nonlocal s
+            if op[0] == 'clock':
+                clocks[op[1]] = (op[2], op[3])
+            elif op[0] == 'sched':
+                cts.append([op[1], op[2], op[3]])
+                add(secs(op[2], op[1]), len(cts) - 1)
+            elif op[0] == 'tempo':
+                clocks[op[1]] = (op[2], op[3])
+                for _, _, ct in list(s):          # queue order
+                    if cts[ct][1] == op[1]:
+                        add(secs(op[1], cts[ct][0]), ct)
+
+        def items(l):
+            return '[' + ','.join(f'({t},{ct})' for t, ct in l) + ']'
+        for i, (op, o) in enumerate(zip(case['ops'], out)):
+            exp = 'ok'
+            if op[0] == 'iter':
+                exp = items([(t, ct) for t, _, ct in s])
+            elif op[0] == 'run':
+                woke = []
+                while s and len(woke) <= 400:
+                    t, _, ct = s.pop(0)
+                    woke.append((t, ct))
+                    task = cts[ct][2]
+                    n = wakes.get(task, 0); wakes[task] = n + 1
+                    b = case['beh'].get(f'{task}:{n}')
+                    if b:
+                        for sub in b[1]:
+                            do(sub)
+                        if b[0] is not None:
+                            cts[ct][0] += b[0]
+                            add(secs(cts[ct][1], cts[ct][0]), ct)
+                exp = 'woke ' + items(woke)
+            else:
+                do(op)
+            if o != exp:
+                return {'what': f'scheduler op #{i} {op}: observed {o}; time order with first-in-first-out ties, one entry '
+                                f'per (clock, task), tempo changes re-inserting in queue order gives {exp}',
+                        'signature': f'sched:{op[0]}', 'index': i}
+        if len(out) != len(case['ops']):
+            return {'what': 'output length mismatch', 'signature': 'sched:len'}
+        return None
+
+    def oracle_score(self, case, out):
+        if len(out) != 2 or not out[1].startswith('base '):
+            return {'what': f'score not produced: {out}', 'signature': 'score:error'}
+        base = int(out[1].split()[1])
+        out = out[:1]
+        entries = [(0, 'root')] + [(t, str(c)) for t, c in case['adds']] + [(case['tail'] + base, 'tail')]
+        exp = 'listing [' + ','.join(f'({t},{c})' for t, c in sorted(entries, key=lambda e: e[0])) + ']'   # stable
+        if out != [exp]:
+            return {'what': f'score lists {out[0] if out else None}; every added bundle once, by time, first in first out: {exp}',
+                    'signature': 'score:listing'}
+        return None
+
     def oracle(self, ops, out):
+        if isinstance(ops, dict) and ops.get('kind') == 'sched':
+            return self.oracle_sched(ops, out)
+        if isinstance(ops, dict) and ops.get('kind') == 'score':
+            return self.oracle_score(ops, out)
         if isinstance(ops, dict):
             return self.oracle_shutdown(ops, out)
         s = []   # list of (prio, seq, task), kept sorted by (prio, seq)
@@ -177,6 +331,10 @@ class Check(common.Check):
         return None
 
     def nontrivial(self, ops, out):
+        if isinstance(ops, dict) and ops.get('kind') == 'sched':
+            return any(o[0] == 'tempo' for o in ops['ops']) and any(o.startswith('woke [(') for o in out)
+        if isinstance(ops, dict) and ops.get('kind') == 'score':
+            return len(set(map(tuple, ops['adds']))) < len(ops['adds'])
         if isinstance(ops, dict):
             return bool(ops['beh'])
         seen, re_add = set(), False
@@ -191,7 +349,11 @@ class Check(common.Check):
         return re_add and any(o.startswith('(') or o.startswith('[(') for o in out)
 
     def histogram(self, cases, outs):
-        h = {'shutdown_cases': sum(1 for c in cases if isinstance(c, dict))}
+        h = {'shutdown_cases': sum(1 for c in cases if isinstance(c, dict) and 'kind' not in c),
+             'scheduler_cases': sum(1 for c in cases if isinstance(c, dict) and c.get('kind') == 'sched'),
+             'scheduler_tempo_changes': sum(sum(1 for o in c['ops'] if o[0] == 'tempo') for c in cases
+                                            if isinstance(c, dict) and c.get('kind') == 'sched'),
+             'score_cases': sum(1 for c in cases if isinstance(c, dict) and c.get('kind') == 'score')}
         for ops, out in zip(cases, outs):
             if isinstance(ops, dict):
                 continue
